@@ -48,7 +48,15 @@ func runC17(g Glue, j *Job, res *JobResult) {
 			got[i] = e.execOps(j.Tasks[i].Ops, e.newObjects(), sess, j.Budget, nil)
 		}
 	}
-	s, panics := gsim.Run(j.Schedule, datas, j.Budget, bodies)
+	var s *gsim.Sched
+	var panics []interface{}
+	if j.Free {
+		panics = gsim.RunFree(datas, j.Budget, bodies)
+		s = &gsim.Sched{}
+		res.Stats["free-mode"] = 1
+	} else {
+		s, panics = gsim.Run(j.Schedule, datas, j.Budget, bodies)
+	}
 	after := solo()
 	if j.Cold {
 		// cold start: the reference is what each task observes alone afterwards
